@@ -60,8 +60,8 @@ TB == AllTypes \cup BaseTypes
 ValsOf == [T \in TB |-> SortedSeq({i \in 1..NG : Holds(T, G[i])})]
 
 \* subsets of the grid used by the operation classes (as index sets)
-CmpSet   == {1, 2, 3, 4, 7, 9, 17, 18, 19, 21, 24, 25, 31, 32, 39, 40, 41, 47, 49, 50, 54, 55, 56, 53, 57}
-RingSet  == {1, 2, 3, 4, 7, 9, 15, 17, 18, 19, 24, 25, 31, 32, 38, 39, 40, 41, 47, 49, 53, 54, 55, 56}
+CmpSet   == {1, 3, 4, 7, 17, 18, 19, 21, 25, 32, 39, 40, 41, 47, 49, 50, 53, 54, 55, 56}
+RingSet  == {1, 2, 3, 4, 7, 9, 17, 18, 19, 24, 32, 39, 40, 41, 47, 53, 54, 56}
 MathSet  == {1, 2, 3, 4, 5, 6, 8, 41, 42, 43, 44, 45, 46, 48, 53, 54, 55, 56}
 MathXtra(op) == CASE op = "Log1pExp" -> {10, 12, 13, 14, 15, 16}       \* the branches -37, 18, 33.3
                   [] op \in {"Exp", "Sinh", "Cosh", "Tanh", "Logistic", "Sigmoid"} -> {10, 11, 12}
@@ -158,25 +158,30 @@ EmitSetter(R) ==
     LET v == G[ValsOf[B][p]] IN
     Emit(Case("setter", Setter(B), R, <<Arg(B, v)>>, VZero, Convert(B, R, v), ""))
 
+(* -- sampling of the binary spaces ---------------------------------------- *)
+Hash(o, r, t1, t2, p, q) == (((((o * 37 + r) * 41 + t1) * 43 + t2) % 99991) * 47 + p) * 53 + q
+\* core: operands of the receiver's own type completely; operands of one type, or one operand of the
+\* receiver's type: a diagonal family of value pairs (every value of either operand occurs: the value
+\* lists have at least CoreStep entries or are covered by the own-type block)
+CoreStep == 7
+Selected(o, R, T1, T2, p, q) ==
+  \/ (T1 = T2 /\ T1 = R)
+  \/ ((T1 = T2 \/ T1 = R \/ T2 = R) /\ (p + 2 * q + TIdx(T1) + TIdx(T2) + o) % CoreStep = 0)
+  \/ (Hash(o, TIdx(R), TIdx(T1), TIdx(T2), p, q) + Seed) % K = 0
+
 (* -- cmp: Greater, Smaller, Equals (epsilon 1/8) -------------------------- *)
 EqualsRes(T, x, y) ==
   LET c == Cmp(x, y) IN
   IF c = "na" THEN Undef(x, y) ELSE VBool(c = "eq")     \* distinct grid values differ by >= 1/4
 EmitCmp(Ta) ==
   \A Tb \in AllTypes : \A p \in 1..Len(CmpVals[Ta]) : \A q \in 1..Len(CmpVals[Tb]) :
+    (Ta = Tb \/ (p + 2 * q + TIdx(Tb)) % 3 = 0 \/ (Hash(20, TIdx(Ta), TIdx(Tb), 1, p, q) + Seed) % K = 0) =>
     LET va == G[CmpVals[Ta][p]]  vb == G[CmpVals[Tb][q]]
         y  == View(Ta, Tb, vb)
         a  == <<Arg(Ta, va), Arg(Tb, vb)>>
     IN /\ Emit(Case("cmp", "Greater", "", a, VZero, GreaterRes(va, y), ""))
        /\ Emit(Case("cmp", "Smaller", "", a, VZero, SmallerRes(va, y), ""))
        /\ Emit(Case("cmp", "Equals", "", a, VRat(1, 8), EqualsRes(Ta, va, y), ""))
-
-(* -- sampling of the binary spaces ---------------------------------------- *)
-Hash(o, r, t1, t2, p, q) == ((((o * 37 + r) * 41 + t1) * 43 + t2) * 47 + p) * 53 + q
-Selected(o, R, T1, T2, p, q) ==
-  \/ (T1 = T2 /\ T1 = R)
-  \/ ((T1 = T2 \/ T1 = R \/ T2 = R) /\ (p + 2 * q + TIdx(T1)) % 3 = 0)
-  \/ (Hash(o, TIdx(R), TIdx(T1), TIdx(T2), p, q) + Seed) % K = 0
 
 (* -- ring: Add Sub Mul Div Min Max ----------------------------------------- *)
 RingExp(op, R, v1, v2, x, y) ==
@@ -203,11 +208,11 @@ Math1Exp(op, R, v, x) ==
        IF s # NoSpecial
        THEN (IF Cls(R) = "int" /\ s.k = "tok" THEN IDef ELSE s)
        ELSE VTerm(Meaning1(op, X(1)))
+Math1Vals == [op \in SeqSet(Math1Ops) |-> [T \in AllTypes |-> Pick(T, MathSet \cup MathXtra(op))]]
 EmitMath1(op, R) ==
   \A T \in AllTypes :
-    LET vals == Pick(T, MathSet \cup MathXtra(op)) IN
-    \A p \in 1..Len(vals) :
-      LET v == G[vals[p]]
+    \A p \in 1..Len(Math1Vals[op][T]) :
+      LET v == G[Math1Vals[op][T][p]]
           x == View(EvalType(R), T, v)
       IN \* integer receivers: ordinary points only; everybody: inside the domain
          (/\ (Cls(R) = "int" => v.k \in {"int", "rat"})
@@ -238,11 +243,11 @@ ParSet(op) == IF op = "Mlgamma" THEN {VI(1), VI(2), VI(3)}
               ELSE {VI(0), VRat(1, 2), VI(1)}
 ParArgSet(op) == IF op = "Mlgamma" THEN {4, 6, 8, 46} ELSE {2, 4, 6, 41, 44}
 RatOfV(v) == IF v.k = "int" THEN RInt(ToInt(v.b)) ELSE [n |-> v.n, d |-> v.d]
+ParVals == [op \in SeqSet(ParOps) |-> [T \in AllTypes |-> Pick(T, ParArgSet(op))]]
 EmitParam(op, R) ==
   \A T \in AllTypes : \A par \in ParSet(op) :
-    LET vals == Pick(T, ParArgSet(op)) IN
-    \A p \in 1..Len(vals) :
-      LET v == G[vals[p]] IN
+    \A p \in 1..Len(ParVals[op][T]) :
+      LET v == G[ParVals[op][T][p]] IN
       Emit(Case("param", op, R, <<Arg(T, v)>>, par, VTerm(MeaningP(op, RatOfV(par), X(1))), ""))
 
 (* -- vec: reductions over dense vectors / matrices of element type ET -------- *)
@@ -294,13 +299,15 @@ EmitNew(T2) ==
 
 (* --------------------- the contract checked on itself (evaluated once by TLC) *)
 SmallInts == {-300, -129, -128, -127, -3, -1, 0, 1, 2, 7, 100, 127, 128, 255, 256, 1000, 32767, 32768, 70000}
+DivInts == {-300, -128, -1, 0, 7, 100, 32768, 70000}
 ContractOK ==
   /\ \A a \in SmallInts : ToInt(FromInt(a)) = a
   /\ \A a \in SmallInts : \A b \in SmallInts :
        /\ BAdd(FromInt(a), FromInt(b)) = FromInt(a + b)
        /\ BSub(FromInt(a), FromInt(b)) = FromInt(a - b)
-       /\ BMul(FromInt(a), FromInt(b)) = FromInt(a * b)
+       /\ (RAbs(a) <= 1000 /\ RAbs(b) <= 1000 => BMul(FromInt(a), FromInt(b)) = FromInt(a * b))
        /\ BLt(FromInt(a), FromInt(b)) = (a < b)
+  /\ \A a \in DivInts : \A b \in DivInts :
        /\ (b # 0 => /\ UDiv(MagB(FromInt(a)), MagB(FromInt(b))) = FromInt(RAbs(a) \div RAbs(b))
                     /\ BQuo(64, FromInt(a), FromInt(b)) =
                          FromInt((RAbs(a) \div RAbs(b)) * (IF (a < 0) # (b < 0) THEN -1 ELSE 1)))
